@@ -8,6 +8,19 @@
 typedef unsigned char u8_t;
 typedef unsigned int u32_t;
 typedef unsigned long long u64_t;
+#ifdef WENCRY_VERIF
+// verification hooks (inert unless a harness installs wv_point_fn); see /verif/DESIGN.md
+struct wv_probe;
+extern void (*wv_point_fn)(const char *tag, int id);
+#define WV_POINT(tag, id)       \
+  do                            \
+  {                             \
+    if (wv_point_fn)            \
+      wv_point_fn((tag), (id)); \
+  } while (0)
+#else
+#define WV_POINT(tag, id)
+#endif
 
 /*
 bufstate_t:缓冲区状态
@@ -49,13 +62,21 @@ isfinal:加载是否结束
 class iobuffer
 {
 public:
+#ifdef WENCRY_VERIF_BUF_SZ
+  static const u32_t BUF_SZ = (WENCRY_VERIF_BUF_SZ);
+  static const u32_t sum = (WENCRY_VERIF_BUF_SZ) * 0x10;
+#else
   static const u32_t BUF_SZ = 0x100000;
   static const u32_t sum = 0x1000000;
+#endif
 
 private:
   u8_t b[BUF_SZ][0x10];
   u32_t total, now, tail;
   bool isfinal;
+#ifdef WENCRY_VERIF
+  friend struct wv_probe;
+#endif
 
 public:
   iobuffer() : total(0), now(0), tail(0), isfinal(false) {};
@@ -85,6 +106,9 @@ class bufferctrl
   enum bufstate_t state;
   std::mutex lock;
   std::condition_variable cv_ready, cv_update;
+#ifdef WENCRY_VERIF
+  friend struct wv_probe;
+#endif
 
 public:
   bufferctrl() : state(EMPTY) { live_num++; };
@@ -125,6 +149,9 @@ class buffergroup
 
   static buffergroup *instance;
   static std::mutex mtx;
+#ifdef WENCRY_VERIF
+  friend struct wv_probe;
+#endif
 
 public:
   buffergroup(const buffergroup &) = delete;
